@@ -487,6 +487,13 @@ fn gen_c03(tier: &str, rng: &mut Sm) -> Gen {
     let dupb = tl![A(27)];
     let dup_e = tl![A(1), A(3)];
     // self-replicating: DupBlock [DupBlock] ... ; exponential growth: blocks of dups
+    // a LONG evaluation: a counting loop run for 1.2 million steps (about a second) must end exactly at its step
+    // limit, in the state the semantics prescribe
+    {
+        let block = tl![A(100), tl![A(6), A(1)], tl![A(13), A(0)], tl![A(27)]];
+        let st = tl![A(10), L(vec![tl![A(27)], block]), A(5), L(vec![A(0)]), A(2), L(vec![]), A(2), L(vec![]), L(vec![]), au(1_200_001)];
+        g.inputs.push(tl![A(0), strings_tree(), st, L(vec![])]);
+    }
     let seeds: Vec<Vec<Tree>> = vec![
         vec![dupb.clone(), tl![A(100), dupb.clone()]],
         vec![dupb.clone(), tl![A(100), dupb.clone(), tl![A(100), dupb.clone()]]],
